@@ -1028,6 +1028,8 @@ func (a *Act) lookupLocalVar(e *specEnv, name string) (specVal, bool) {
 	// debug references: last definition of the name that is already translated and
 	// dominates the point of interest
 	var best ssa.Value
+	var bestBlock *ssa.BasicBlock
+	bestIdx := 0
 	for _, b := range fn.Blocks {
 		for _, in := range b.Instrs {
 			dr, ok := in.(*ssa.DebugRef)
@@ -1053,14 +1055,98 @@ func (a *Act) lookupLocalVar(e *specEnv, name string) (specVal, bool) {
 				if ins, ok := dr.X.(ssa.Instruction); ok && !(ins.Block() != e.li.header && ins.Block().Dominates(e.li.header)) {
 					continue
 				}
+				// the reference itself (the assignment or use that names the variable) must lie
+				// on the way to the loop head
+				if !(b != e.li.header && b.Dominates(e.li.header)) {
+					continue
+				}
 			} else if a.curBlock != nil {
 				if ins, ok := dr.X.(ssa.Instruction); ok && !(ins.Block() == a.curBlock || ins.Block().Dominates(a.curBlock)) {
 					continue
 				}
+				// ... and on the way to the current point (an assignment `x = v` in another
+				// branch names v as x there, not here)
+				if !(b == a.curBlock || b.Dominates(a.curBlock)) {
+					continue
+				}
 			}
-			if best == nil || laterDef(dr.X, best) {
-				best = dr.X
+			if best == nil || laterPoint(b, instrIndex(dr), bestBlock, bestIdx) {
+				best, bestBlock, bestIdx = dr.X, b, instrIndex(dr)
 			}
+		}
+	}
+	// a phi that merges assignments to the variable (its comment is the variable's name) holds
+	// the value from the start of its block on
+	for _, b := range fn.Blocks {
+		for _, in := range b.Instrs {
+			phi, ok := in.(*ssa.Phi)
+			if !ok {
+				break
+			}
+			if phi.Comment != name {
+				continue
+			}
+			if _, defined := a.vals[phi]; !defined {
+				continue
+			}
+			if e.li != nil {
+				if !(b != e.li.header && b.Dominates(e.li.header)) {
+					continue
+				}
+			} else if a.curBlock != nil {
+				if !(b == a.curBlock || b.Dominates(a.curBlock)) {
+					continue
+				}
+			}
+			if best == nil || laterPoint(b, -1, bestBlock, bestIdx) {
+				best, bestBlock, bestIdx = phi, b, -1
+			}
+		}
+	}
+	if _, isConst := best.(*ssa.Const); best == nil || isConst {
+		// only the declaration (zero value) names the variable on the way here: the builder ties
+		// `x := e` to its value at the later uses of x only. Take the latest value tied to the
+		// name anywhere whose definition dominates the point of interest.
+		var alt ssa.Value
+		for _, b := range fn.Blocks {
+			for _, in := range b.Instrs {
+				dr, ok := in.(*ssa.DebugRef)
+				if !ok || dr.IsAddr {
+					continue
+				}
+				id, ok := dr.Expr.(*ast.Ident)
+				if !ok || id.Name != name {
+					continue
+				}
+				if _, isC := dr.X.(*ssa.Const); isC {
+					continue
+				}
+				if obj := dr.Object(); obj != nil && obj.Pkg() != nil && obj.Parent() == obj.Pkg().Scope() {
+					continue
+				}
+				if _, defined := a.vals[dr.X]; !defined {
+					continue
+				}
+				ins, isIns := dr.X.(ssa.Instruction)
+				if e.li != nil {
+					if phi, isPhi := dr.X.(*ssa.Phi); isPhi && phi.Block() == e.li.header {
+						continue
+					}
+					if isIns && !(ins.Block() != e.li.header && ins.Block().Dominates(e.li.header)) {
+						continue
+					}
+				} else if a.curBlock != nil {
+					if isIns && !(ins.Block() == a.curBlock || ins.Block().Dominates(a.curBlock)) {
+						continue
+					}
+				}
+				if alt == nil || laterDef(dr.X, alt) {
+					alt = dr.X
+				}
+			}
+		}
+		if alt != nil {
+			best = alt
 		}
 	}
 	if best != nil {
@@ -1604,6 +1690,18 @@ func (e *specEnv) constVal(c *types.Const) specVal {
 }
 
 // laterDef: definition x comes after y on every path (y's block dominates x's, or same block later).
+// laterPoint: program point (xb, xi) comes after (yb, yi) on every path to it (same block later,
+// or y's block dominates x's).
+func laterPoint(xb *ssa.BasicBlock, xi int, yb *ssa.BasicBlock, yi int) bool {
+	if yb == nil {
+		return true
+	}
+	if xb == yb {
+		return xi > yi
+	}
+	return yb.Dominates(xb)
+}
+
 func laterDef(x, y ssa.Value) bool {
 	xi, ok1 := x.(ssa.Instruction)
 	yi, ok2 := y.(ssa.Instruction)
